@@ -963,6 +963,56 @@ PROPS["C17"] = dict(
 )
 
 
+# ---------------------------------------------------------------------------- C18
+def pred_c18(line, st):
+    """oblivious transfer, judged on the real library's runs (independent of the Lean model)"""
+    op, a, r = toks(line)
+    t = tag_of(a)
+    if op == "prop.ot.deliver":
+        N, sigma, want, got = a[0], a[1], a[2], a[3]
+        st["deliver"] = st.get("deliver", 0) + 1
+        if r[0] == "WRONG" or (r[0] == "ok" and want != got):
+            return "chooser (N=%s, index %s, variant %s) output %s, the message at that index is %s" % (N, sigma, t.split(":")[0], got, want)
+        if r[0] == "aborted" and t.endswith("expect-ok"):
+            return "honest run (N=%s, index %s, variant %s) aborted although the chooser's exponents are distinct" % (N, sigma, t.split(":")[0])
+        return None
+    if op == "prop.ot.unchosen":
+        st["unchosen"] = st.get("unchosen", 0) + 1
+        if r[0] == "EQUAL" and t.endswith("exc0"):
+            return "ciphertext %s (not chosen, index %s of N=%s, variant %s) decrypts to its message under the chooser's own secrets" % (a[2], a[1], a[0], t.split(":")[0])
+        return None
+    if op == "prop.ot.replay":
+        if r[0] != "same":
+            return "harness: the chooser's first move differs between the two runs with the same coins"
+        return None
+    if op == "ot.send" and t.startswith("bad:"):
+        st["badquery"] = st.get("badquery", 0) + 1
+        if r[0] != "[]":
+            return "sender wrote %s on a malformed query (%s)" % (r[0][:60], t)
+        if r[1] == "ok":
+            return "sender accepted a malformed query (%s)" % t
+        return None
+    return None
+
+
+PROPS["C18"] = dict(
+    module="TmcgProps.C18",
+    areas=[("ot", {"quick": 24, "thorough": 70}, [], "san")],
+    obligations=[("Tmcg.C18.ot12_correct", "full"), ("Tmcg.C18.ot12_collision", "full"), ("Tmcg.C18.ot1N_correct", "full"),
+                 ("Tmcg.C18.ot1N_collision", "full"), ("Tmcg.C18.ot1N_opt_correct", "full"), ("Tmcg.C18.bitlen_of_lt_q", "full"),
+                 ("Tmcg.C18.sender_aborts_on_bad_query", "full"), ("Tmcg.C18.unchosen_not_decrypted", "full"),
+                 ("Tmcg.C18.send1N_silent", "full"), ("Tmcg.C18.sendOpt_silent", "full"), ("Tmcg.C18.send12_missing", "full")],
+    predicate=pred_c18,
+    level_text="Theorems in Lean 4 about models of sender and chooser of the 1-of-2, 1-of-N and optimised 1-of-N protocols (functions of the drawn coins and the peer's lines): for every N>=2, index, message vector "
+               "in the group and all coins the chooser outputs the message at its index (1-of-2/1-of-N: whenever the chooser's exponents are pairwise distinct; otherwise the sender refuses, proved too); "
+               "a query with a non-member or coinciding elements is refused with nothing written; ciphertext i != sigma opens under the chooser's secrets to M_i * g^((c_i-ab) s_i), equal to M_i only on the explicit exceptional coins. "
+               "Correspondence: real sender and chooser run against each other (every index, N up to 8 quick / 64 thorough, all three variants), malformed first moves and replies, model recomputes every line.",
+    level_note=LEVEL_NOTE,
+    assumptions=["1-of-2 / 1-of-N completeness holds for coins with pairwise distinct exponents (the sender refuses the honest chooser otherwise: probability <= N^2/2q)",
+                 "privacy of the unchosen messages is stated as the exact algebraic value the chooser can compute, not as a computational indistinguishability claim"],
+)
+
+
 # ---------------------------------------------------------------------------- C19
 def hexb(s):
     return b"" if s == "-" else bytes.fromhex(s)
